@@ -70,6 +70,11 @@ func (env *SpecEnv) child() *SpecEnv {
 }
 
 func (env *SpecEnv) evalBool(e ast.Expr) (t string, err error) {
+	savedPC := env.x.vc.pcNow
+	if env.st != nil {
+		env.x.vc.pcNow = env.st.pc
+	}
+	defer func() { env.x.vc.pcNow = savedPC }()
 	defer func() {
 		if r := recover(); r != nil {
 			if se, ok := r.(specErr); ok {
@@ -87,6 +92,11 @@ func (env *SpecEnv) evalBool(e ast.Expr) (t string, err error) {
 }
 
 func (env *SpecEnv) evalVal(e ast.Expr) (v *Val, err error) {
+	savedPC := env.x.vc.pcNow
+	if env.st != nil {
+		env.x.vc.pcNow = env.st.pc
+	}
+	defer func() { env.x.vc.pcNow = savedPC }()
 	defer func() {
 		if r := recover(); r != nil {
 			if se, ok := r.(specErr); ok {
